@@ -56,6 +56,10 @@ def universe(tier):
                         if tier == "quick" and n == 4 and sum(k in ("galt", "altg") for k in kinds) > 1:
                             continue
                         yield {"f": f, "kinds": kinds, "dated": dated, "alap": alap}
+                        if n <= 3 and not dated:
+                            # two scenarios: everything fits in the first, the LAST leaf cannot be scheduled in the second (its start lies
+                            # beyond the window there) - the containers above it are judged in each scenario on its own
+                            yield {"f": f, "kinds": kinds, "dated": dated, "alap": alap, "sc2": True}
                         if count_containers(f) >= 2:
                             # the same forest with LOCAL ids that repeat under different parents (children are called by their position)
                             yield {"f": f, "kinds": kinds, "dated": dated, "alap": alap, "ids": "pos"}
@@ -107,7 +111,13 @@ def to_spec(it):
         below = [t for _f, t, _p in walk_tasks(state["pin_in"]["children"]) if not t.get("children")]
         if below:
             below[-1]["start"] = "2025-01-10-11:00"
-    return {"alap": it["alap"],
+    extra = {}
+    if it.get("sc2"):
+        from mc.render import walk_tasks
+        leaves = [t for _f, t, _p in walk_tasks(tasks) if not t.get("children")]
+        leaves[-1]["scen"] = [("s2", "start 2025-06-02-09:00")]
+        extra["scenarios"] = [("plan", [("s2", [])])]
+    return {"alap": it["alap"], **extra,
             "resources": [{"id": "r1"}, {"id": "rdead", "leaves": [{"k": "leaves", "type": "annual", "a": "2025-01-01", "b": "2026-01-01"}]},
                           {"id": "team", "children": [{"id": "m1"}, {"id": "m2"}]}],
             "tasks": tasks}
@@ -127,6 +137,10 @@ def evaluate(item):
         return common.errored(item, obs)
     r = common.base_result(item, obs)
     v, ncont = oracles.c10_containers(spec, obs, 0)
+    for sc in range(1, obs.get("nsc", 1)):
+        v2, n2 = oracles.c10_containers(spec, obs, sc)
+        v += [(c, f"[scenario {sc}] {d}") for c, d in v2]
+        ncont += n2
     r["v"] = common.dedup(v)
     r["nt"] = len(set(item["kinds"])) > 1 or bool(item["dated"])
     r["x"] = {"containers_checked": ncont}
